@@ -51,6 +51,12 @@ def to_py(x):
     if isinstance(x, tuple) and x and x[0] == "obj":
         out = OrderedDict()
         pairs = x[1]
+        if len(pairs) == 1 and pairs[0][0] == "@loads":
+            # a plugin's own json.loads of its payload (oe500 callout FFDC): the value is whatever Python's json.loads gives
+            try:
+                return _loads(pairs[0][1])
+            except Exception:
+                raise Unsupported()
         i = 0
         while i < len(pairs):
             k, v = pairs[i]
@@ -189,6 +195,8 @@ def first_diff(a, b, path=""):
             if d:
                 return d
         return None
+    if isinstance(a, str) and isinstance(b, str) and a.endswith("Exception=@exc") and b.startswith(a[:-4]):
+        return None     # the text of a shipped plugin's exception is not modelled
     if type(a) != type(b) or a != b:
         return "%s: %r vs %r" % (path, a if not isinstance(a, (dict, list)) else type(a).__name__,
                                  b if not isinstance(b, (dict, list)) else type(b).__name__)
